@@ -9,6 +9,7 @@ import (
 	"sync"
 	"testing"
 	"time"
+	"unicode/utf8"
 
 	"github.com/aperturerobotics/bifrost/link"
 	"github.com/aperturerobotics/bifrost/peer"
@@ -114,6 +115,10 @@ type c04Case struct {
 	// EarlyRequests registers the standing link requests while the controllers are attached but their
 	// transports are not constructed yet (start-up / restart window)
 	EarlyRequests bool `json:"early_requests"`
+	// AnonController: one local identity only, its transport controller constructed without a peer id (it takes
+	// the identity the bus provides); every link then belongs to that controller
+	AnonController bool `json:"anon_controller,omitempty"`
+	AcceptErr      int  `json:"accept_err,omitempty"`
 }
 
 var localKeys = []int{0, 5}
@@ -121,6 +126,8 @@ var localKeys = []int{0, 5}
 func genC04(t *rapid.T) c04Case {
 	var c c04Case
 	c.EarlyRequests = rapid.Bool().Draw(t, "early")
+	c.AnonController = rapid.IntRange(0, 3).Draw(t, "anon") == 0
+	c.AcceptErr = rapid.IntRange(0, 4).Draw(t, "accepterr")
 	nl := rapid.IntRange(2, 5).Draw(t, "nlinks")
 	for i := 0; i < nl; i++ {
 		c.Links = append(c.Links, c04Link{
@@ -134,7 +141,7 @@ func genC04(t *rapid.T) c04Case {
 		c.Ops = append(c.Ops, c04Op{
 			Op:    rapid.SampledFrom([]string{"est", "est", "est", "lost", "stream", "stream"}).Draw(t, "op"),
 			L:     rapid.IntRange(0, nl-1).Draw(t, "l"),
-			Proto: rapid.IntRange(0, 2).Draw(t, "proto"),
+			Proto: rapid.IntRange(0, 4).Draw(t, "proto"),
 		})
 	}
 	return c
@@ -142,10 +149,19 @@ func genC04(t *rapid.T) c04Case {
 
 func (l c04Link) uuid() uint64 { return uint64(2000 + l.Node*100 + l.Remote*10 + l.Addr) }
 
-var c04Protos = []string{"verif/p0", "verif/p1", "verif/é"}
+var c04Protos = []string{"verif/p0", "verif/p1", "verif/é", " verif/p0", "verif/p1\n"}
 
 func checkC04(c c04Case) (o vstat.Outcome) {
-	r, release, err := newRigGated(localKeys...)
+	localKeys := localKeys
+	if c.AnonController {
+		localKeys = []int{0}
+		c.Links = append([]c04Link{}, c.Links...)
+		for i := range c.Links {
+			c.Links[i].Node = 0
+		}
+		o.Classes = append(o.Classes, "controller-without-configured-peer-id")
+	}
+	r, release, err := newRigGatedOpt(c.AnonController, localKeys...)
 	if err != nil {
 		o.Discard = true
 		return
@@ -200,6 +216,7 @@ func checkC04(c c04Case) (o vstat.Outcome) {
 	for i, l := range c.Links {
 		n := r.nodes[l.Node]
 		fl := fakes.NewLink(fmt.Sprintf("l%d", i), l.uuid(), n.peerID, gen.PeerID(l.Remote))
+		fl.AcceptErr = fakes.ClosedAcceptError(c.AcceptErr + i)
 		fl.TptID = n.tpt.uuid
 		node := n
 		fl.SetOnClose(func(l *fakes.Link) { node.handler.HandleLinkLost(l) })
@@ -412,10 +429,20 @@ type c07dCase struct {
 	PidLen  int    `json:"pid_len"`
 	Payload int    `json:"payload"`
 	Remote  int    `json:"remote"`
+	// Pid, if non-empty, is the protocol id used instead of "verif/xxx" (any non-empty valid UTF-8 string is a valid id)
+	Pid string `json:"pid,omitempty"`
 }
+
+// pidGen: arbitrary valid protocol ids - whitespace and control characters at the edges, case, separators, non-ASCII
+var pidGen = rapid.OneOf(
+	rapid.Just(""), rapid.Just(""),
+	rapid.SampledFrom([]string{" ", "\n", " verif/p", "verif/p ", "verif/p\n", "\tverif/p", "verif/p\u00a0", "\u3000p", "verif/ p", "VERIF/P", "verif/p/", "/verif/p", "verif//p", "verif/p\x00", "\x00", "verif/p|x", "é", "verif/\u202e"}),
+	rapid.StringN(1, 12, 40),
+)
 
 func genC07d(t *rapid.T) c07dCase {
 	return c07dCase{
+		Pid:     pidGen.Draw(t, "pid"),
 		Kind:    rapid.SampledFrom([]string{"valid", "valid", "valid", "empty-pid", "bad-utf8", "len-zero", "len-over", "truncated", "not-proto"}).Draw(t, "kind"),
 		PidLen:  rapid.SampledFrom([]int{1, 2, 5, 30, 121, 122, 123, 200, 5000}).Draw(t, "pidlen"),
 		Payload: rapid.SampledFrom([]int{0, 1, 17, 300}).Draw(t, "payload"),
@@ -445,6 +472,12 @@ func checkC07d(c c07dCase) (o vstat.Outcome) {
 	defer fl.Close()
 	n.handler.HandleLinkEstablished(fl)
 	pid := "verif/" + strings.Repeat("x", c.PidLen)
+	if c.Pid != "" && utf8.ValidString(c.Pid) {
+		pid = c.Pid
+		if c.Kind == "valid" {
+			o.Classes = append(o.Classes, "arbitrary-protocol-id")
+		}
+	}
 	pay := gen.DetBytes("c07d", c.Payload)
 	good := transport_controller.VerifMarshalStreamEstablishHeader(transport_controller.NewStreamEstablish(protocol.ID(pid)))
 	var data []byte
